@@ -51,15 +51,13 @@ pub struct BumpN;
 impl Command for BumpN { fn apply(self, w: &mut World) { w.resource_mut::<HitsN>().0 += 1; } }
 fn counting_cmd(In(x): In<u8>, mut c: Commands, mut n: Local<u8>) -> u8 { *n += 1; c.queue(BumpN); x + *n }
 
-/// C17: `named_syscall_direct` runs exactly the system registered under that name (an unknown name is an error and runs
-/// nothing), returns its output, has applied the system's commands on return, keeps its state across calls;
-/// `register_named_system` replaces the system under a name (fresh state); `named_syscall` with the same name continues
-/// the state the direct calls left.
+/// C17: `named_syscall_direct`: an unknown name is an error and runs nothing; a registered name runs exactly its system,
+/// returns its output, has applied the system's commands on return and keeps its state across calls.
 #[kani::proof]
 #[kani::stub(core::any::TypeId::of, crate::vh::stub_typeid_of)]
 #[kani::stub(<core::any::TypeId as crate::vh::PEq>::eq, crate::vh::stub_typeid_eq)]
 #[kani::unwind(6)]
-fn named_syscall_direct_and_register()
+fn named_syscall_direct_unknown_then_registered()
 {
     let mut world = World::new();
     world.m_apply_table::<(BumpN,)>();
@@ -77,13 +75,49 @@ fn named_syscall_direct_and_register()
     assert!(named_syscall_direct::<In<u8>, u8>(&mut world, other, x).is_err() && world.resource::<HitsN>().0 == 1,
         "C17: another name is still unknown: error, nothing runs");
     assert!(matches!(named_syscall_direct::<In<u8>, u8>(&mut world, name, x), Ok(v) if v == x + 2), "C17: state persists across direct calls");
-    assert!(world.resource::<HitsN>().0 == 2);
-    register_named_system(&mut world, other, counting_cmd);
+    assert!(world.resource::<HitsN>().0 == 2 && world.m_queue.is_empty());
+    std::mem::forget(world);
+    kani::cover!(true, "end of harness reached");
+}
+
+/// C17: two registered names whose systems have the same function type keep independent state.
+#[kani::proof]
+#[kani::stub(core::any::TypeId::of, crate::vh::stub_typeid_of)]
+#[kani::stub(<core::any::TypeId as crate::vh::PEq>::eq, crate::vh::stub_typeid_eq)]
+#[kani::unwind(6)]
+fn named_syscall_direct_two_names()
+{
+    let mut world = World::new();
+    let x: u8 = kani::any();
+    kani::assume(x < 50);
+    let name = SysName::new_raw::<u8>(7);
+    let other = SysName::new_raw::<u8>(8);
+    register_named_system(&mut world, name, counting_n);
+    register_named_system(&mut world, other, counting_n);
+    assert!(matches!(named_syscall_direct::<In<u8>, u8>(&mut world, name, x), Ok(v) if v == x + 1));
     assert!(matches!(named_syscall_direct::<In<u8>, u8>(&mut world, other, x), Ok(v) if v == x + 1), "C17: the second name has its own state");
-    assert!(matches!(named_syscall_direct::<In<u8>, u8>(&mut world, name, x), Ok(v) if v == x + 3), "C17: and does not disturb the first name's");
-    register_named_system(&mut world, name, counting_cmd);
+    assert!(matches!(named_syscall_direct::<In<u8>, u8>(&mut world, name, x), Ok(v) if v == x + 2), "C17: and does not disturb the first name's");
+    std::mem::forget(world);
+    kani::cover!(true, "end of harness reached");
+}
+
+/// C17: `register_named_system` on a name in use replaces its system (documented: "Over-writes the existing system"): the
+/// next call starts from a fresh state, and the name stays callable.
+#[kani::proof]
+#[kani::stub(core::any::TypeId::of, crate::vh::stub_typeid_of)]
+#[kani::stub(<core::any::TypeId as crate::vh::PEq>::eq, crate::vh::stub_typeid_eq)]
+#[kani::unwind(6)]
+fn named_syscall_register_replaces()
+{
+    let mut world = World::new();
+    let x: u8 = kani::any();
+    kani::assume(x < 50);
+    let name = SysName::new_raw::<u8>(7);
+    register_named_system(&mut world, name, counting_n);
+    assert!(matches!(named_syscall_direct::<In<u8>, u8>(&mut world, name, x), Ok(v) if v == x + 1));
+    register_named_system(&mut world, name, counting_n);
     assert!(matches!(named_syscall_direct::<In<u8>, u8>(&mut world, name, x), Ok(v) if v == x + 1), "C17: re-registering a name replaces its system (fresh state)");
-    assert!(world.resource::<HitsN>().0 == 5, "C17: one run per successful call, none for the failed ones");
+    assert!(matches!(named_syscall_direct::<In<u8>, u8>(&mut world, name, x), Ok(v) if v == x + 2), "C17: which then persists like any other");
     std::mem::forget(world);
     kani::cover!(true, "end of harness reached");
 }
@@ -126,15 +160,14 @@ impl Command for CallAgain
 fn reentrant(In(x): In<u8>, mut c: Commands, mut n: Local<u8>, mut again: bevy::ecs::system::ResMut<Reenter>) -> u8
 {
     *n += 1;
-    c.queue(BumpN);
     if again.0 > 0 { again.0 -= 1; c.queue(CallAgain); }
     x + *n
 }
 
 /// C17 (calls made from commands of other calls, same key): a command queued by a named system calls the SAME key while
 /// the outer call is still in progress.  Documented behaviour (named_syscall.rs "WARNING"): the nested invocation runs on a
-/// fresh state which does not persist; the outer-most invocation's state does.  Each invocation runs exactly once, both
-/// have their commands applied before the outer call returns, and the key stays usable afterwards.
+/// fresh state which does not persist; the outer-most invocation's state does.  Each invocation runs exactly once, the
+/// nested one is applied before the outer call returns, and the key stays usable afterwards.
 #[kani::proof]
 #[kani::stub(core::any::TypeId::of, crate::vh::stub_typeid_of)]
 #[kani::stub(<core::any::TypeId as crate::vh::PEq>::eq, crate::vh::stub_typeid_eq)]
@@ -142,20 +175,16 @@ fn reentrant(In(x): In<u8>, mut c: Commands, mut n: Local<u8>, mut again: bevy::
 fn named_syscall_reentrant_same_key()
 {
     let mut world = World::new();
-    world.m_apply_table::<(BumpN, CallAgain)>();
-    world.insert_resource(HitsN(0));
-    world.insert_resource(Reenter(0));
+    world.m_apply_table::<(CallAgain,)>();
+    world.insert_resource(Reenter(1));
     world.insert_resource(InnerOut(99));
     let x: u8 = kani::any();
     kani::assume(x < 50);
-    assert!(named_syscall(&mut world, 7u32, x, reentrant) == x + 1);
-    world.resource_mut::<Reenter>().0 = 1;
-    assert!(named_syscall(&mut world, 7u32, x, reentrant) == x + 2, "C17: the outer call continues the key's state and returns its own output");
-    assert!(world.resource::<HitsN>().0 == 3, "C17: outer and nested invocation each ran exactly once, commands applied on return");
-    assert!(world.resource::<InnerOut>().0 == 1, "C17: the nested invocation of a key that is running ran once, on a fresh state (documented)");
+    assert!(named_syscall(&mut world, 7u32, x, reentrant) == x + 1, "C17: the outer call returns its own output");
+    assert!(world.resource::<InnerOut>().0 == 1, "C17: the nested invocation of a key that is running ran exactly once before the outer call returned, on a fresh state (documented)");
     assert!(world.resource::<Reenter>().0 == 0 && world.m_queue.is_empty());
-    assert!(named_syscall(&mut world, 7u32, x, reentrant) == x + 3, "C17: the outer-most invocation's state is the one that persists");
-    assert!(world.resource::<HitsN>().0 == 4);
+    assert!(named_syscall(&mut world, 7u32, x, reentrant) == x + 2, "C17: the outer-most invocation's state is the one that persists; the key stays usable");
+    assert!(world.resource::<InnerOut>().0 == 1, "C17: nothing else ran");
     std::mem::forget(world);
     kani::cover!(true, "end of harness reached");
 }
